@@ -8,7 +8,8 @@ D="$1"; REL="${2:-}"
 MV=${MV:-/tmp/mv}
 export CARGO_NET_OFFLINE=true
 if [ ! -d $MV ]; then git -C /repo worktree add -q --detach $MV HEAD; cp /repo/Cargo.lock $MV/; fi
-cd $MV
+cd "$MV" || exit 2
+[ "$(pwd -P)" != /verif ] && [ "$(pwd -P)" != /repo ] || exit 2
 git checkout -q --detach main 2>/dev/null; git reset -q --hard; rm -f tests/verif_demo.rs
 cp /repo/Cargo.lock . 2>/dev/null
 if git apply --3way "$D/patch.diff" 2>/tmp/mv-apply.err || git apply "$D/patch.diff" 2>>/tmp/mv-apply.err; then APPLIES=true; else APPLIES=false; fi
